@@ -120,4 +120,3 @@ Definition side_conditions (sp : oracle) (d : desc) : res (list bool) :=
       | SRC => first_hopb sp g c Req && first_hopb sp g c Rsp
       | XY => true
       end].
-
